@@ -12,23 +12,24 @@ import (
 
 // RoundTrip describes the equality judgement at the end of an S4 session.
 type RoundTrip struct {
-	Target string  `json:"target"` // file holding the second input
-	YAML   bool    `json:"yaml,omitempty"`
-	Arrays string  `json:"arrays"` // list | set | mset
-	Eps    float64 `json:"eps,omitempty"`
-	Merge  bool    `json:"merge,omitempty"`
+	Target string   `json:"target"` // file holding the second input
+	YAML   bool     `json:"yaml,omitempty"`
+	Arrays string   `json:"arrays"` // list | set | mset
+	Eps    float64  `json:"eps,omitempty"`
+	Merge  bool     `json:"merge,omitempty"`
 	Keys   []string `json:"keys,omitempty"`
-	Source string  `json:"source"` // file holding the first input
+	Source string   `json:"source"` // file holding the first input
 }
 
 // Session is a sequence of jd processes on one simulated disk.
 type Session struct {
-	Kind   string     `json:"kind"`
-	Sector int        `json:"sector"`
-	Files  []File     `json:"files"`
-	Dirs   []string   `json:"dirs,omitempty"`
-	Procs  []ProcSpec `json:"procs"`
-	RT     *RoundTrip `json:"round_trip,omitempty"`
+	Kind      string     `json:"kind"`
+	Sector    int        `json:"sector"`
+	FileChunk int        `json:"file_chunk,omitempty"`
+	Files     []File     `json:"files"`
+	Dirs      []string   `json:"dirs,omitempty"`
+	Procs     []ProcSpec `json:"procs"`
+	RT        *RoundTrip `json:"round_trip,omitempty"`
 }
 
 // Variant selects which clause of C14 a case evaluates.
@@ -102,7 +103,7 @@ func runSession(s Session, fs *simos.FS, withModel bool, stopAfterFault bool) *s
 		if withModel {
 			r.Exp = append(r.Exp, cliModel(p.Bin, p.Arg0, p.Argv, fs, in))
 		}
-		res := runProc(fs, p, s.Sector, prev)
+		res := runProc(fs, p, IOCfg{s.Sector, s.FileChunk}, prev)
 		r.Res = append(r.Res, res)
 		r.FSPost = append(r.FSPost, fs.Clone())
 		r.Log = append(r.Log, eventLog(i, res)...)
@@ -314,6 +315,9 @@ func checkC14(c C14Case) (*Violation, []string, *caseInfo) {
 		pre := fsFromFiles(s.Files, s.Dirs)
 		for i := range base.Res {
 			if v := compareToModel(s, base, i, pre); v != nil {
+				return v, base.Log, info
+			}
+			if v := statusVsDocuments(s, base, i, pre); v != nil {
 				return v, base.Log, info
 			}
 			pre = base.FSPost[i]
@@ -607,4 +611,160 @@ func v1HashAliasing(s Session, m cmpMode) bool {
 		}
 	}
 	return false
+}
+
+// uniqueKeyed reports whether, in every array of v, the objects carrying all
+// the keys have pairwise different key values (the situation -setkeys is
+// documented for).
+func uniqueKeyed(v *Val, keys []string) bool {
+	if v == nil {
+		return true
+	}
+	for _, c := range containers(v, nil) {
+		if c.K != 'a' {
+			continue
+		}
+		var ids []*Val
+		for _, e := range c.Elems {
+			if e.K != 'o' {
+				continue
+			}
+			id := &Val{K: 'a'}
+			for _, k := range keys {
+				x, ok := e.get(k)
+				if !ok {
+					return false
+				}
+				id.Elems = append(id.Elems, x)
+			}
+			for _, o := range ids {
+				if equalVals(o, id, cmpMode{Arrays: "set"}) {
+					return false
+				}
+			}
+			ids = append(ids, id)
+		}
+	}
+	return true
+}
+
+// equalOutsideArrays is equalVals with the precision tolerance switched off
+// inside arrays (used only to label a failure, never to excuse one silently).
+func equalOutsideArrays(x, y *Val, eps float64, inArray bool) bool {
+	if x == nil || y == nil {
+		return x == nil && y == nil
+	}
+	if x.K != y.K {
+		return false
+	}
+	switch x.K {
+	case 'n':
+		if inArray {
+			return x.N == y.N
+		}
+		d := x.N - y.N
+		if d < 0 {
+			d = -d
+		}
+		return d <= eps
+	case 'o':
+		if len(x.Keys) != len(y.Keys) {
+			return false
+		}
+		for i, k := range x.Keys {
+			w, ok := y.get(k)
+			if !ok || !equalOutsideArrays(x.Vals[i], w, eps, inArray) {
+				return false
+			}
+		}
+		return true
+	case 'a':
+		if len(x.Elems) != len(y.Elems) {
+			return false
+		}
+		for i := range x.Elems {
+			if !equalOutsideArrays(x.Elems[i], y.Elems[i], eps, true) {
+				return false
+			}
+		}
+		return true
+	}
+	return equalVals(x, y, cmpMode{Arrays: "list"})
+}
+
+// statusVsDocuments judges the exit status of a diff-mode process against the
+// documents themselves: 0 exactly when the two inputs are equal under the
+// reading the flags select (README: arrays as lists, sets, multisets; numbers
+// within -precision), 1 exactly when they differ. The comparator is the
+// harness's own (equalVals); jd's Equals and Diff are not consulted.
+func statusVsDocuments(s Session, r *sessRun, i int, pre *simos.FS) *Violation {
+	p, res, e := s.Procs[i], r.Res[i], r.Exp[i]
+	if !e.Defined || e.Mode != "diff" || res.Crash != "" || (res.Code != 0 && res.Code != 1) {
+		return nil
+	}
+	f := parseArgv(p.Argv)
+	if f.err != "" || len(f.args) < 1 {
+		return nil
+	}
+	at, ok := pre.Files[f.args[0]]
+	if !ok {
+		return nil
+	}
+	var bt []byte
+	if len(f.args) == 2 {
+		if bt, ok = pre.Files[f.args[1]]; !ok {
+			return nil
+		}
+	} else {
+		bt = r.Stdin[i]
+	}
+	a, err := parseDoc(string(at), f.yaml)
+	if err != nil {
+		return nil
+	}
+	b, err := parseDoc(string(bt), f.yaml)
+	if err != nil {
+		return nil
+	}
+	m := cmpMode{Arrays: "list", Eps: f.precision}
+	var keys []string
+	switch {
+	case f.set:
+		m.Arrays = "set"
+	case f.mset:
+		m.Arrays = "mset"
+	case f.setkeys != "" && p.Bin == "top" && !f.v2:
+		// the v1 library reads arrays as lists unless -set/-mset is given;
+		// -setkeys alone only names identities for those modes
+		m.Arrays = "list"
+	case f.setkeys != "":
+		m.Arrays = "set"
+		for _, k := range strings.Split(f.setkeys, ",") {
+			keys = append(keys, strings.TrimSpace(k))
+		}
+		if !uniqueKeyed(a, keys) || !uniqueKeyed(b, keys) {
+			return nil // duplicate identities: not the documented use of -setkeys
+		}
+	}
+	stats.probe("status-judged-against-documents")
+	equal := equalVals(a, b, m)
+	want := 1
+	if equal {
+		want = 0
+	}
+	if res.Code == want {
+		return nil
+	}
+	v := viol14("status-vs-documents", p, e, "exit status %d but the inputs are %s under the flags given (arrays as %s, precision %g): a=%s b=%s; argv=%q", res.Code, map[bool]string{true: "equal", false: "different"}[equal], m.Arrays, m.Eps, show(at), show(bt), p.Argv)
+	if equal && m.Eps > 0 && !equalOutsideArrays(a, b, m.Eps, false) {
+		v.Tag = "precision-inside-array"
+	}
+	if where14(p, e)[:6] == "top-v1" && m.Arrays != "list" {
+		s2 := s
+		s2.RT = &RoundTrip{Source: f.args[0], Target: f.args[len(f.args)-1], YAML: f.yaml}
+		if len(f.args) == 2 && v1HashAliasing(s2, m) {
+			v.Tag = "v1-set-hash-aliasing"
+		}
+	}
+	return v
 }
